@@ -73,7 +73,7 @@ var scalarTypes = []reflect.Type{tString, tInt, tBool, tFloat64, tInt8, tInt64, 
 func formatsFor(t reflect.Type) []string {
 	switch {
 	case t == tTime:
-		return []string{"RFC3339", "RFC3339Nano", "unix", "unixmilli", "unixmicro", "unixnano", "DateOnly", "'2006-01-02 15h'", "RFC1123", "bogus"}
+		return []string{"RFC3339", "RFC3339Nano", "unix", "unixmilli", "unixmicro", "unixnano", "DateOnly", "'2006-01-02 15h'", "RFC1123", "bogus", "RFC822", "RFC850", "UnixDate", "ANSIC", "RubyDate", "Kitchen", "StampNano", "'2006 MST'"}
 	case t == tDur:
 		return []string{"sec", "milli", "micro", "nano", "units", "iso8601", "bogus"}
 	case t == tBytes || t == tArr4:
@@ -333,8 +333,13 @@ func (g *GoGen) Value(t reflect.Type, depth int) reflect.Value {
 		}
 		return v
 	case tTime:
-		switch s.Draw(5) {
+		switch s.Draw(7) {
 		case 0: // zero
+		case 5:
+			// a zone abbreviation is caller-controlled text that layouts with MST copy into the output
+			v.Set(reflect.ValueOf(time.Date(2000, 1, 2, 3, 4, 5, 0, time.FixedZone("A\"B\\", 3600))))
+		case 6:
+			v.Set(reflect.ValueOf(time.Date(2000, 1, 2, 3, 4, 5, 6, time.FixedZone([]string{"\x01Z", "\xffZ", "<é&>", "\u2028"}[s.Draw(4)], -7200))))
 		case 1:
 			v.Set(reflect.ValueOf(time.Unix(1700000000, 123456789).UTC()))
 		case 2:
